@@ -288,7 +288,37 @@ def registry():
             setup=dict),
         Fun("alarms.times (providers)", [cal_a], lambda x: alarms_of(x).alarms.times, a_times, lambda r: r.append(r[0]), modes=(1, 2)),
     ]
+    def alarms_obj(attr):
+        """one long-lived Alarms object per input; the failing call tries to give it a second parent (ValueError) --
+        start, end, acknowledgement and snooze must still be those of the first"""
+        from icalendar.alarms import Alarms
+
+        def call(inp, st):
+            if isinstance(inp, tuple):
+                other = alarms_of(cal_a)
+                other.DTSTAMP = datetime(2030, 1, 1, tzinfo=__import__("zoneinfo").ZoneInfo("UTC"))
+                other.start = datetime(2031, 1, 1, 8, 0)
+                errs = 0
+                for k, al in list(st.items()):
+                    try:
+                        al.add_component(other)
+                    except ValueError:
+                        errs += 1
+                if errs or not st:
+                    raise ValueError("second parent refused")
+                return None
+            al = st.get(inp)
+            if al is None:
+                al = st[inp] = Alarms(alarms_of(inp))
+            return getattr(al, attr)
+        return call
+
+    F["C14"].append(Fun("Alarms.times (one object, failing add_component in between)", [cal_a, cal_b], alarms_obj("times"), a_times,
+                        lambda r: r.append(r[0]) if r else r.append(None), setup=dict, bad=[("bad",)]))
     F["C15"] = [
+        Fun("Alarms.active (one object, failing add_component in between)", [cal_a, cal_b], alarms_obj("active"),
+            lambda r: [[repr(t.trigger), repr(t.acknowledged), repr(t.parent.get("UID"))] for t in r],
+            lambda r: r.append(r[0]) if r else r.append(None), setup=dict, bad=[("bad",)]),
         Fun("component.alarms.active", [cal_a, cal_b], lambda x, st: st.setdefault(x, alarms_of(x)).alarms.active, a_times, lambda r: r.append(r[0]) if r else r.append(None),
             setup=dict),
     ]
